@@ -148,6 +148,8 @@ class Step(object):
             raise Undecided("value of %s" % n.get("n"))
         if k == "member":
             nm = n.get("n")
+            if (n.get("rec"), nm) in self.consts:
+                return ("ch", LITERAL.get(self.consts[n.get("rec"), nm], "OTHER"))
             if nm in self.consts:
                 return ("ch", LITERAL.get(self.consts[nm], "OTHER"))
             if n.get("tp"):
